@@ -1,2 +1,267 @@
-// Package c04 will hold the check for property C04.
+// Package c04 decides C04: mailbox naming is canonical.  Part one evaluates the exported naming
+// functions (Addressing.NewRecipient / ExtractMailbox, StoreManager.MailboxForAddress) in the three
+// naming modes over grammar-generated and mutated addresses and checks metamorphic relations
+// (non-empty, fixed point, case independence, +extension independence) plus the M-naming model
+// for addresses built from parts.  Part two delivers one message over a real SMTP session and
+// fetches it through the real REST and web UI routes by address, by derived name and by a
+// case-flipped address.
 package c04
+
+import (
+	"fmt"
+	"strings"
+
+	"github.com/inbucket/inbucket/v3/pkg/config"
+	"github.com/inbucket/inbucket/v3/pkg/message"
+	"github.com/inbucket/inbucket/v3/pkg/policy"
+
+	"verifharness/internal/fw"
+	"verifharness/internal/gen"
+	"verifharness/internal/sut"
+)
+
+const keyEdgePeriod = "C04:name-edge-period"
+
+func init() {
+	fw.Register(&fw.Prop{
+		ID:    "C04",
+		Level: "exploration",
+		Rule: "direct: addresses from a grammar (atoms with every unquoted special, '+' at start/middle/end/repeated/anywhere, dots, " +
+			"quoted strings with quoted pairs and characters needing quotes, quoted-pair atoms, period edge shapes, source routes, host names " +
+			"in random case, trailing dot, IPv4/IPv6 literals with random tag and hex case, invalid domains) plus 1-3 byte-level mutations of " +
+			"accepted addresses; each address is evaluated in local, full and domain naming; only addresses NewRecipient accepts take part. " +
+			"Relations: name non-empty; name(name)=name; name(case-flipped)=name; name(+ext inserted into an unquoted local part)=name; " +
+			"name = M-naming for addresses built from parts. A direct case is non-trivial when accepted in >=1 mode; distinct by (shape class, " +
+			"modes accepted, relations exercised, name edge kind). e2e: one accepted address per case (mode = index mod 3) delivered over a real " +
+			"SMTP session, then GET /api/v1/mailbox/{x} and GET /serve/mailbox/{x}/{id} for x in {address, derived name, case-flipped address}; " +
+			"distinct by (mode, shape class, lookups made).",
+		Assumptions: []string{
+			"name(x) means Addressing.ExtractMailbox(x) = StoreManager.MailboxForAddress(x); the three exported entry points are also required to agree with each other",
+			"the +extension relation is applied only where the local part is an unquoted atom (no '\"' or '\\' anywhere in the address) and only when the extended address is itself accepted (length limits)",
+			"M-naming is applied to addresses built from parts; for quoted or escaped local parts only when the unescaped text has no '+' and no doubled backslash",
+			"URL path segments are escaped with url.PathEscape; any lookup key containing '/' is skipped and counted (router semantics, finding C14:name-contains-slash)",
+			"equivalence of a host name with and without trailing dot, or of different spellings of one IP address, is not demanded",
+			"POP3 USER takes the mailbox name verbatim by design; it is exercised and counted, never judged",
+			"failures whose derived name has a local component starting/ending with '.' or containing '..' are reported under the single key " + keyEdgePeriod,
+		},
+		MinObs: func(tier string) map[string]int64 {
+			m := map[string]int64{
+				"accepted:local": 100000, "accepted:full": 100000, "accepted:domain": 100000,
+				"fixedpoint_checks": 300000, "caseflip_checks": 300000, "plusext_checks": 150000, "model_checks": 200000,
+				"mutated_accepted": 50000, "route_accepted": 30000, "ipv6_accepted": 50000, "quoted_accepted": 100000,
+				"plus_in_local_accepted": 150000, "edge_period_names": 10000,
+				"e2e_delivered": 10000, "e2e_get:webui-attach": 10000, "e2e_change:rest-purge": 4000, "e2e_lookup_by_address": 4000, "e2e_lookup_by_name": 4000, "e2e_lookup_by_flipped": 4000,
+				"e2e_mode:local": 1500, "e2e_mode:full": 1500, "e2e_mode:domain": 1500,
+				"distinct_nontrivial": 1000,
+			}
+			return m
+		},
+		Run: run,
+	})
+}
+
+var modes = []string{"local", "full", "domain"}
+
+func modeConst(m string) config.Root {
+	c := config.Root{}
+	switch m {
+	case "local":
+		c.MailboxNaming = config.LocalNaming
+	case "full":
+		c.MailboxNaming = config.FullNaming
+	case "domain":
+		c.MailboxNaming = config.DomainNaming
+	}
+	return c
+}
+
+type namer struct {
+	mode string
+	pol  *policy.Addressing
+	mgr  *message.StoreManager
+}
+
+func newNamers() []*namer {
+	var out []*namer
+	for _, m := range modes {
+		conf := sut.DefaultConf()
+		conf.MailboxNaming = modeConst(m).MailboxNaming
+		pol := &policy.Addressing{Config: conf}
+		out = append(out, &namer{mode: m, pol: pol, mgr: &message.StoreManager{AddrPolicy: pol}})
+	}
+	return out
+}
+
+func run(c *fw.Ctx) {
+	namers := newNamers()
+	c.Cases("direct", c.N(600000, 20000000), func(i int, r *fw.Rand) {
+		direct(c, namers, r)
+	})
+	c.Cases("e2e", c.N(6000, 100000), func(i int, r *fw.Rand) {
+		endToEnd(c, namers[i%3], i, r)
+	})
+}
+
+// name applies both lookup entry points; they must agree.
+func (n *namer) name(c *fw.Ctx, x string) (string, error, bool) {
+	a, errA := n.pol.ExtractMailbox(x)
+	b, errB := n.mgr.MailboxForAddress(x)
+	if (errA == nil) != (errB == nil) || a != b {
+		c.Violation("C04:api-disagree:"+n.mode, fmt.Sprintf("mode %s: ExtractMailbox(%q)=(%q,%v) but MailboxForAddress=(%q,%v)", n.mode, x, a, errA, b, errB), nil)
+		return "", nil, false
+	}
+	return a, errA, true
+}
+
+func direct(c *fw.Ctx, namers []*namer, r *fw.Rand) {
+	a := genAddr(r)
+	mutated := false
+	if r.Chance(1, 3) {
+		// mutate only addresses that are accepted somewhere, so most mutants stay near the grammar
+		if _, err := namers[1].pol.NewRecipient(a.Text); err == nil {
+			a.Text = mutate(r, a.Text)
+			a.Built, mutated = false, true
+			a.Class = "mut:" + a.Class
+			a.Plain = plainLocalEnd(a.Text) >= 0
+		}
+	}
+	flipped := flipCase(r, a.Text)
+	ext := genExt(r)
+	var sig []string
+	for _, n := range namers {
+		detail := map[string]any{"mode": n.mode, "address": a.Text, "class": a.Class}
+		rc, err := n.pol.NewRecipient(a.Text)
+		if err != nil {
+			c.Count("rejected:"+n.mode, 1)
+			continue
+		}
+		name := rc.Mailbox
+		c.Count("accepted:"+n.mode, 1)
+		feat := n.mode
+		if mutated {
+			c.Count("mutated_accepted", 1)
+		}
+		if a.Route != "" && !mutated {
+			c.Count("route_accepted", 1)
+		}
+		if strings.Contains(strings.ToLower(a.Domain), "[ipv6:") && !mutated {
+			c.Count("ipv6_accepted", 1)
+		}
+		if !a.Plain && !mutated {
+			c.Count("quoted_accepted", 1)
+		}
+		if strings.Contains(a.Unesc, "+") && !mutated {
+			c.Count("plus_in_local_accepted", 1)
+		}
+		// the three entry points agree
+		n2, err2, ok := n.name(c, a.Text)
+		if !ok {
+			continue
+		}
+		if err2 != nil || n2 != name {
+			c.Violation("C04:api-disagree:"+n.mode, fmt.Sprintf("mode %s: NewRecipient(%q).Mailbox=%q but ExtractMailbox=(%q,%v)", n.mode, a.Text, name, n2, err2), detail)
+			continue
+		}
+		// non-empty
+		if name == "" {
+			c.Violation("C04:empty-name:"+n.mode, fmt.Sprintf("mode %s: accepted address %q has the empty mailbox name", n.mode, a.Text), detail)
+			continue
+		}
+		edge, kind := edgePeriod(n.mode, name)
+		if edge {
+			c.Count("edge_period_names", 1)
+			feat += "/edge-" + kind
+		}
+		// fixed point
+		c.Count("fixedpoint_checks", 1)
+		nn, errN, ok := n.name(c, name)
+		if !ok {
+			continue
+		}
+		switch {
+		case errN != nil && edge:
+			c.Count("edge_period_fail:"+n.mode+":"+kind+":"+shapeOf(a), 1)
+			c.Violation(keyEdgePeriod, fmt.Sprintf("mode %s: %q is accepted and named %q, but looking that name up fails: %v", n.mode, a.Text, name, errN), detail)
+		case errN != nil:
+			c.Violation("C04:name-not-lookupable:"+n.mode, fmt.Sprintf("mode %s: %q is accepted and named %q, but looking that name up fails: %v", n.mode, a.Text, name, errN), detail)
+		case nn != name:
+			c.Violation("C04:name-not-fixed-point:"+n.mode, fmt.Sprintf("mode %s: name(%q)=%q but name(%q)=%q", n.mode, a.Text, name, name, nn), detail)
+		case edge:
+			c.Count("edge_period_ok:"+n.mode+":"+kind, 1)
+		}
+		// case independence
+		if flipped != a.Text {
+			if rf, err := n.pol.NewRecipient(flipped); err == nil {
+				c.Count("caseflip_checks", 1)
+				feat += "/flip"
+				if rf.Mailbox != name {
+					c.Violation("C04:name-depends-on-case:"+n.mode, fmt.Sprintf("mode %s: name(%q)=%q but name(%q)=%q", n.mode, a.Text, name, flipped, rf.Mailbox), detail)
+				}
+			} else {
+				c.Count("caseflip_rejected", 1)
+			}
+		}
+		// +extension independence (unquoted local parts only)
+		if a.Plain {
+			if at := plainLocalEnd(a.Text); at >= 0 {
+				ax := a.Text[:at] + "+" + ext + a.Text[at:]
+				if rx, err := n.pol.NewRecipient(ax); err == nil {
+					c.Count("plusext_checks", 1)
+					feat += "/ext"
+					if rx.Mailbox != name {
+						c.Violation("C04:name-depends-on-extension:"+n.mode, fmt.Sprintf("mode %s: name(%q)=%q but name(%q)=%q", n.mode, a.Text, name, ax, rx.Mailbox), detail)
+					}
+				} else {
+					c.Count("plusext_rejected", 1)
+				}
+			}
+		}
+		// M-naming
+		if a.Built && (a.Plain || !strings.Contains(a.Unesc, "+")) {
+			base := a.Unesc
+			if p := strings.IndexByte(base, '+'); p >= 0 {
+				base = base[:p]
+			}
+			want := gen.ModelName(n.mode, base, a.Domain)
+			c.Count("model_checks", 1)
+			feat += "/model"
+			if name != want {
+				c.Violation("C04:name-differs-from-model:"+n.mode, fmt.Sprintf("mode %s: name(%q)=%q, documented naming gives %q", n.mode, a.Text, name, want), detail)
+			}
+		}
+		sig = append(sig, feat)
+	}
+	if len(sig) > 0 {
+		c.NonTrivial("direct|" + a.Class + "|" + strings.Join(sig, ","))
+		if mutated {
+			c.Count("class:mutated", 1)
+		} else {
+			c.Count("class:"+classHead(a.Class), 1)
+		}
+		if r.Chance(1, 4000) {
+			c.Sample(map[string]any{"address": a.Text, "class": a.Class, "checked": sig})
+		}
+	}
+}
+
+// shapeOf is used only to tally which written shapes lead to an edge-period name.
+func shapeOf(a addr) string {
+	switch {
+	case strings.ContainsAny(a.Text, "\"") && strings.Contains(a.Text, "\\"):
+		return "quoted+escaped"
+	case strings.ContainsAny(a.Text, "\""):
+		return "quoted"
+	case strings.Contains(a.Text, "\\"):
+		return "escaped"
+	}
+	return "unquoted"
+}
+
+func classHead(cls string) string {
+	cls = strings.TrimPrefix(cls, "route:")
+	if i := strings.IndexByte(cls, '@'); i >= 0 {
+		cls = cls[:i]
+	}
+	return cls
+}
+
